@@ -122,6 +122,23 @@ ADDED5 = {
  "C17": " (shared) In virtual-host addressing the name the validator sees is the Host label as sent (no case folding).",
 }
 
+# clauses added by seed round 6 (DESIGN.md §4)
+ADDED6 = {
+ "C01": " (shared) A reference read under a lock is not used after the lock was released and taken again (L9).",
+ "C02": " No ListBuckets implementation returns successfully from inside its loop; every operation has a way to succeed (R09.9).",
+ "C04": " (shared) The walked fs listing is sorted by key after the walk.",
+ "C06": " (shared) The object file is opened truncating.",
+ "C07": " A reference read under a lock is not used after that lock was released and acquired again in the same function (L9).",
+ "C08": " A failed body read never reaches the first mutation, whatever the error value (assumption reachability).",
+ "C09": " Lower bounds of `v + k` are used only where v is bounded above (no wrap-around).",
+ "C10": " The containment sanitiser cleans the rooted key; the metadata store does not live below the buckets directory; bucket- and object-named parameters are not handed over in each other's place.",
+ "C12": " (shared) Error discipline also over the four PutObject implementations that consume the decoded stream.",
+ "C13": " Where the marker is the current version the version iterator is marked exhausted before Seek answers; the handler resets the parsed page only for an explicit empty key-marker.",
+ "C15": " (shared) The fs metadata record name hashes the unmodified key.",
+ "C16": " Each addressing option stores its argument unconditionally (total options).",
+ "C17": " (shared) Key containment (rooted Clean fixpoint) and the metadata store outside the buckets directory: no bucket comes into being except through create-bucket.",
+}
+
 def main():
     ids = [json.loads(l)["id"] for l in open(os.path.join(VERIF, "properties.jsonl"))]
     checks = []
@@ -136,7 +153,7 @@ def main():
             "evidence_file": "evidence/%s.json" % pid,
             "replay_cmd_template": "./check %s --replay {path}" % pid,
             "engine": "gfs3check",
-            "level_claimed": {"category": "other", "text": c["text"] + ADDED.get(pid, "") + ADDED5.get(pid, ""), "design_ref": c["ref"]},
+            "level_claimed": {"category": "other", "text": c["text"] + ADDED.get(pid, "") + ADDED5.get(pid, "") + ADDED6.get(pid, ""), "design_ref": c["ref"]},
             "level_note": c["note"],
             "technique": TECH + c["tech"],
         })
